@@ -74,6 +74,8 @@ type Exec struct {
 	ts           *threadState
 	analyzers    map[*Value]*analysisModel
 	lastAnalyzer *Value
+	lastSwagger  *Value
+	swAnalyzer   map[*Value]*Value
 	poolItems    map[*Value][]Value
 	inPool       map[*Value]string
 	poolOrder    []*Value
